@@ -21,14 +21,14 @@ TECH = {
     'C09': 'MIR dominance chains for staged delivery + shell-template analysis of the push command',
     'C10': 'who-may-write + edge dominance of the commit rename on hash equality / fsync / length',
     'C11': 'interprocedural taint from request paths to fs sinks through safe_join; guard exhaustiveness',
-    'C12': 'edge dominance (prologue before effects), bounded-allocation guard, panic reachability, EOF exits',
+    'C12': 'edge dominance (prologue before effects), bounded-allocation guard, panic reachability with interval discharge, EOF exits, in-step reachability rule over the serve loop',
     'C13': 'MIR provenance of Put arguments, loop/continuation shape, effect ceiling in hub.rs',
-    'C14': 'decision-DAG of needs_transfer, mtime provenance (pure copy chain), unit table, error discipline',
-    'C15': 'edge dominance in build_plan, metacharacter precedence in glob_match, dry-run effect guard',
+    'C14': 'decision-DAG of needs_transfer, mtime provenance (pure copy chain), unit table, stat-kind agreement (provenance of FileMeta), error discipline',
+    'C15': 'edge dominance in build_plan, glob_match as a loop-head transition system compared with the classic matcher over all atom valuations (symbolic path enumeration, no solver), dry-run effect guard',
     'C16': 'window-invariant dataflow in the scan loops + shared AR certification of both checksum producers',
     'C17': 'abstract interpretation (polynomial residues + interval bounds) of checksum.rs MIR; no solver',
     'C18': 'decision-DAG extraction by abstract interpretation of MIR, exhaustive over consistent valuations',
-    'C19': 'edge dominance in build_plan, DD of needs_transfer, matcher precedence, listing writer/reader table',
+    'C19': 'edge dominance in build_plan, DD of needs_transfer, glob_match transition system vs the classic matcher (symbolic path enumeration over MIR, exhaustive over atom valuations), listing writer/reader table',
     'C20': 'codec table agreement (encode/decode/from_u8), validate-before-allocate dominance, panic reachability',
 }
 ENGINE = {p: 'copia-static' for p in TECH}
